@@ -138,7 +138,8 @@ void remove_file_and_empty_parent_folders(std::string path)
 
         path = path.substr(0, i);
 
-        if (path.empty())
+        // Nothing above the directory we are standing in is ours to remove ("./f" leaves ".").
+        if (path.empty() || path == ".")
             break;
 
         if (!remove_empty_directory(path))
